@@ -145,6 +145,7 @@ pub fn run_history(cfg: &Cfg, hist: &[SOp], fault: Option<(u64, u32)>) -> Outcom
     // write / flush records of the whole session (since the mount), kept apart from the per-call log
     let session: Rc<RefCell<Vec<harness::dev::Rec>>> = Rc::new(RefCell::new(Vec::new()));
     st.borrow_mut().logging = true;
+    st.borrow_mut().log_data = true;
     let ctx = format!("{hist:?}");
     let r = sess::guarded(|| -> Result<u64, (String, String)> {
         let dev = StdIoWrapper::new(StdDev { inner: MemDev::new(st.clone()) });
@@ -279,14 +280,28 @@ pub fn run_history(cfg: &Cfg, hist: &[SOp], fault: Option<(u64, u32)>) -> Outcom
                     }
                     if last {
                         let s = st.borrow();
-                        // durability, not call counting: when the flush returns, no write of the session may be younger
-                        // than the last flush that reached the storage (a wrapper may skip a flush nothing depends on)
+                        // durability, not call counting: the image made of everything the storage received up to its
+                        // last flush must hold the file with the content written so far (a wrapper may skip a flush
+                        // nothing depends on; writes that the file does not depend on may follow the flush)
                         let mut all = session.borrow().clone();
                         all.extend(s.log.iter().cloned());
-                        let last_write = all.iter().rposition(|r| r.kind == Kind::Write);
                         let last_flush = all.iter().rposition(|r| r.kind == Kind::Flush);
-                        if last_write.is_some() && (last_flush.is_none() || last_flush < last_write) {
-                            return Err(("std-io/flush-not-forwarded-to-the-storage".into(), format!("{ctx}: device log of the flush call: {} writes, flush record {last_flush:?}", s.log.iter().filter(|r| r.kind == Kind::Write).count())));
+                        let mut img = DevState::new(cfg.base.clone());
+                        for r in all.iter().take(last_flush.unwrap_or(0)) {
+                            if let (Kind::Write, Some(d)) = (r.kind, &r.data) {
+                                img.write_at(r.off, d);
+                            }
+                        }
+                        let found = sess::decode_dev(&img, cfg, &[]).ok().and_then(|d| d.find_entry("/f").map(|e| (e.size as usize, e.content.clone())));
+                        let durable = match &found {
+                            Some((size, content)) => *size == m.data.len() && (m.data.is_empty() || content.as_deref() == Some(&m.data[..])),
+                            None => false,
+                        };
+                        if !durable {
+                            return Err((
+                                "std-io/flush-not-forwarded-to-the-storage".into(),
+                                format!("{ctx}: the image of everything written before the last device flush (record {last_flush:?}) holds f as {:?} bytes, written so far: {}", found.as_ref().map(|f| f.0), m.data.len()),
+                            ));
                         }
                     }
                 }
